@@ -102,6 +102,11 @@ def run_c19(case):
         app = make_app(fake_clock=True, adapter=FileAdapter(case["compress"], d))
         client = app.test_client()
         u = start(client, timeout={"seconds": 100}); begin(client, u)
+        if case.get("resession"):
+            # an earlier session of the same instance that was saved at the same clock positions
+            for kind in case["resession"]:
+                step_req(client, u, kind)
+            client.post("/%s/begin-session" % u, json={"scenario_managers": ["sm"], "scenarios": ["base"], "equations": ["s"]})
         for kind in case["kinds"]:
             r = step_req(client, u, kind)
             if r.status_code != 200:
